@@ -1219,5 +1219,6 @@ func runC20(tier string, args []string) {
 		}
 	}
 	collectRaces(run, workDir())
+	env.longLived(run.Pick(2, 10))
 	run.Finish(run.Pick(800, 30000))
 }
